@@ -644,6 +644,15 @@ Proof.
   - unfold tauchen_P, tauchen_args. rewrite !map_length, seq_length. reflexivity.
   - intros i Hi. apply tauchen_row_spec; assumption.
 Qed.
+
+Lemma tauchen_entry_spec n rho sigma std_y n_std i j :
+  (2 <= n)%nat -> (i < n)%nat -> (j < n)%nat ->
+  let x := fun k => getQ (tauchen_x n std_y n_std) k in
+  let half := (1 # 2) * ((n_std * std_y - - (n_std * std_y)) / natQ (n - 1)) in
+  nth j (nth i (tauchen_P Phi n rho sigma std_y n_std) []) 0 ==
+  (if (j =? n - 1)%nat then 1 else Phi ((x j - rho * x i + half) / sigma))
+  - (if (j =? 0)%nat then 0 else Phi ((x j - rho * x i - half) / sigma)).
+Proof. intros Hn Hi Hj. cbv zeta. apply tauchen_entry; assumption. Qed.
 End TauchenProofs.
 
 (* the Tauchen grid: n evenly spaced points, n_std stationary standard deviations either side of mu/(1-rho) *)
